@@ -144,10 +144,10 @@ theorem comments_nb (n : Nat) (cs : List Str) (h : DocsOk cs) : NB K (comments n
 
 theorem removeDash_key {s : Str} (h : KeyStr s) : KeyStr (removeDash s) := replaceDash_key h
 
-theorem variantName_ident {s : Str} (h : IdentStr s) : IdentStr (variantName s) := by
-  have hp := toPascal_ident h
+theorem variantName_ident {U : UnicodeOps} {s : Str} (h : IdentStr s) : IdentStr (variantName U s) := by
+  have hp := toPascal_ident (U := U) h
   simp only [variantName]
-  cases hn : Rename.toPascal s with
+  cases hn : Rename.toPascal U s with
   | nil => intro c hc; simp at hc
   | cons c t =>
     rw [hn] at hp
@@ -482,7 +482,7 @@ theorem caseFacts_ok {cfg : Cfg} (H : CfgOk cfg) (e : RustEnum) (he : EnumOk e) 
     (v : RustEnumVariant) (hv : VariantOk v) (c : KtCase) (h : caseFacts cfg e key v = .ok c) : CaseOk c := by
   have hgp := generics_nb he.generics
   have hparent : NB K (cfg.pfx ++ e.id.renamed) := (KeyStr.nb (KeyStr.append H.pfx he.renamed))
-  have hname : NB K (variantName v.id.original) := IdentStr.nb (variantName_ident hv.original)
+  have hname : NB K (variantName cfg.U v.id.original) := IdentStr.nb (variantName_ident hv.original)
   unfold caseFacts at h
   cases v with
   | unit id cs =>
